@@ -24,6 +24,8 @@ ENGINES = {
                      "simA/enum19.cpp", "simA/main.cpp"],
              "rt": ["simrt/heap.cpp", "simrt/clock_fatal.cpp"],
              "link": ["-Wl,--wrap=abort", "-Wl,--wrap=fprintf"], "bin": "simA"},
+    "simC": {"sut": ["simC/simc.cpp", "simC/main.cpp"], "rt": ["simrt/heap.cpp", "simrt/clock_fatal.cpp"],
+             "link": ["-Wl,--wrap=abort", "-Wl,--wrap=fprintf"], "bin": "simC"},
 }
 
 def tree_hash(paths):
